@@ -62,10 +62,15 @@ def main() -> int:
     for flag, (mod, kw, prop) in expect.items():
         inv = [prop] if prop.startswith("Inv") else []
         pr = [prop] if prop.startswith("Prop") else []
-        res = core.run_model(ctx, mod, f"{mod}-{flag}", core.model_cfg(mod, invariants=["TypeOK"] + inv, properties=pr, flags={flag: False}, **kw))
+        # F14 (a full vehicle blocks the queue and is passed) is a C18 violation on the tree as it was when it was found:
+        # with the later first-come-first-served guard (FixFifo) in place the same defect starves the queue instead,
+        # which C18 - a safety statement - does not speak about.  So FixFull is switched off together with FixFifo.
+        flags = {flag: False, "FixFifo": False} if flag == "FixFull" else {flag: False}
+        res = core.run_model(ctx, mod, f"{mod}-{flag}", core.model_cfg(mod, invariants=["TypeOK"] + inv, properties=pr, flags=flags, **kw))
         good = prop in res.violated
         ok3 = ok3 and good
-        out.append(f"3. {mod} with {flag}=FALSE: TLC reports {res.violated} after {res.distinct} states ({'as intended' if good else 'NOT DETECTED'})")
+        label = ", ".join(f"{k}=FALSE" for k in flags)
+        out.append(f"3. {mod} with {label}: TLC reports {res.violated} after {res.distinct} states ({'as intended' if good else 'NOT DETECTED'})")
     Path(__file__).resolve().parent.parent.joinpath("SELFTEST.md").write_text("\n".join(out) + "\n")
     print("\n".join(out))
     import shutil
